@@ -89,6 +89,14 @@ CHECKS.update({
             "DESIGN.md section 5 C11"),
 })
 
+CHECKS.update({
+    "C16": ("translation_validation",
+            "real fuse_two_dags on enumerated program pairs; structural clauses concrete; fused vs separate runs of the real interpreter on a shared symbolic initial state, z3 validity query per step and written persistent variable",
+            "Per pair and renaming predicate: ids unique, first method unchanged, second method's edges preserved under the id map, temporaries disjoint, persistent names unrenamed (or as the predicate asks); then z3 proves for all integer initial states and function interpretations that after each of K=2 steps (thorough 3) every persistent variable a method writes has the value that method produces alone. Pairs: curated + seeded random with overlapping temporaries, statement ids, loop counters and shared inputs.",
+            "Trusted: z3, symx, pymbolic's id map (captured by a spy). Semantic clause on non-interfering pairs only.",
+            "DESIGN.md section 5 C16"),
+})
+
 NOT_APPLICABLE = {
 }
 
